@@ -64,6 +64,38 @@ var errTargets = []struct {
 type TypeErrCase struct {
 	Target string `json:"target"`
 	Input  string `json:"input"`
+	// Then: a second text decoded into the SAME target afterwards (what the
+	// target already holds - members of maps, fields of structs, elements of a
+	// backing array beyond a slice's length - is part of what Unmarshal works
+	// with); Cut: every slice in the target is first cut to half its length,
+	// the recycling idiom buf = buf[:n].
+	Then string `json:"then,omitempty"`
+	Cut  bool   `json:"cut_slices,omitempty"`
+}
+
+// cutSlices halves the length of every slice reachable from v (capacity and backing array stay).
+func cutSlices(v reflect.Value) {
+	switch v.Kind() {
+	case reflect.Pointer, reflect.Interface:
+		if !v.IsNil() {
+			cutSlices(v.Elem())
+		}
+	case reflect.Struct:
+		for i := 0; i < v.NumField(); i++ {
+			cutSlices(v.Field(i))
+		}
+	case reflect.Array:
+		for i := 0; i < v.Len(); i++ {
+			cutSlices(v.Index(i))
+		}
+	case reflect.Slice:
+		for i := 0; i < v.Len(); i++ {
+			cutSlices(v.Index(i))
+		}
+		if v.CanSet() && v.Len() > 0 {
+			v.SetLen(v.Len() / 2)
+		}
+	}
 }
 
 // shaped draws a JSON value that fits ty; with probability 1/odds a node is
@@ -120,7 +152,7 @@ func shaped(t *rapid.T, ty reflect.Type, depth int, odds int, wrong *int) *ref.V
 		}
 		a := ref.Arr()
 		for i := 0; i < n; i++ {
-			a.Vals = append(a.Vals, shaped(t, ty.Elem(), depth-1, odds, wrong))
+			a.Arr = append(a.Arr, shaped(t, ty.Elem(), depth-1, odds, wrong))
 		}
 		return a
 	case reflect.Map:
@@ -184,7 +216,13 @@ func drawTypeErr(t *rapid.T) TypeErrCase {
 	if gen.OneIn(t, 4, "spell") {
 		txt = gen.Spell(t, v, "sp")
 	}
-	return TypeErrCase{Target: errTargets[i].name, Input: txt}
+	c := TypeErrCase{Target: errTargets[i].name, Input: txt}
+	if gen.OneIn(t, 3, "then") {
+		w2 := 0
+		c.Then = shaped(t, errTargets[i].ty, 4, rapid.SampledFrom([]int{0, 0, 8}).Draw(t, "odds2"), &w2).Text(false)
+		c.Cut = rapid.Bool().Draw(t, "cut")
+	}
+	return c
 }
 
 func typeErrDetail(err error) string {
@@ -195,6 +233,14 @@ func typeErrDetail(err error) string {
 		return fmt.Sprintf("Value=%q Type=%v Offset=%d Struct=%q Field=%q text=%q", e.Value, e.Type, e.Offset, e.Struct, e.Field, e.Error())
 	}
 	return ""
+}
+
+// typeErrDetailIf: the details, when they are comparable under this toolchain.
+func typeErrDetailIf(err error) string {
+	if !strings.HasPrefix(runtime.Version(), "go1.23") {
+		return ""
+	}
+	return typeErrDetail(err)
 }
 
 func checkTypeErr(c TypeErrCase) ev.Verdict {
@@ -234,6 +280,42 @@ func checkTypeErr(c TypeErrCase) ev.Verdict {
 		v.Err = fmt.Errorf("decoded values differ\n fork: %+v\n std:  %+v", n1, n2)
 		return v
 	}
+	if c.Then != "" && ref.Valid([]byte(c.Then)) {
+		v.Classes = append(v.Classes, fmt.Sprintf("second-decode-into-same-target/cut=%v", c.Cut))
+		if c.Cut {
+			cutSlices(pv1.Elem())
+			cutSlices(pv2.Elem())
+		}
+		var t1, t2 error
+		q1 := ev.Safe(func() { t1 = fj.Unmarshal([]byte(c.Then), pv1.Interface()) })
+		q2 := ev.Safe(func() {
+			d := stdjson.NewDecoder(strings.NewReader(c.Then))
+			d.UseNumber()
+			t2 = d.Decode(pv2.Interface())
+		})
+		if q1 != nil || q2 != nil {
+			if (q1 == nil) != (q2 == nil) {
+				v.Err = fmt.Errorf("second Unmarshal into the same target panics in one implementation only\n fork: %v\n std:  %v", q1, q2)
+			}
+			return v
+		}
+		if errType(t1) != errType(t2) || typeErrDetailIf(t1) != typeErrDetailIf(t2) {
+			v.Err = fmt.Errorf("second Unmarshal into the same target: error differs\n fork: %v (%s)\n std:  %v (%s)", t1, errType(t1), t2, errType(t2))
+			return v
+		}
+		if n1, n2 := norm(pv1.Elem()), norm(pv2.Elem()); !reflect.DeepEqual(n1, n2) {
+			v.Err = fmt.Errorf("second Unmarshal into the same target (slices cut: %v): values differ\n fork: %+v\n std:  %+v", c.Cut, n1, n2)
+			return v
+		}
+		// did the target's earlier contents matter? (measured on the standard library's side)
+		fresh := reflect.New(ty)
+		d := stdjson.NewDecoder(strings.NewReader(c.Then))
+		d.UseNumber()
+		_ = d.Decode(fresh.Interface())
+		if !reflect.DeepEqual(norm(fresh.Elem()), norm(pv2.Elem())) {
+			v.Classes = append(v.Classes, fmt.Sprintf("second-decode-keeps-earlier-data/cut=%v", c.Cut))
+		}
+	}
 	d1, d2 := typeErrDetail(e1), typeErrDetail(e2)
 	v.NonTrivial = d1 != ""
 	if d1 != "" {
@@ -256,7 +338,7 @@ func checkTypeErr(c TypeErrCase) ev.Verdict {
 
 var typeErrUnit = ev.Unit[TypeErrCase]{
 	Name: "type-errors-vs-stdlib",
-	Rule: "declared struct types (tags, omitempty, string option, embedding, pointers, arrays, maps and slices of structs, an interface field) x well-formed inputs drawn to fit the type with 0, 1/4, 1/8 or 1/20 of the nodes replaced by a value of another JSON type or a number the Go type cannot hold; oracle: encoding/json - same decoded value after the error, same error type, and for UnmarshalTypeError the same Value, Type, Offset, Struct, Field and text; non-trivial = a type error is reported",
+	Rule: "declared struct types (tags, omitempty, string option, embedding, pointers, arrays, maps and slices of structs, an interface field) x well-formed inputs drawn to fit the type with 0, 1/4, 1/8 or 1/20 of the nodes replaced by a value of another JSON type or a number the Go type cannot hold; oracle: encoding/json - same decoded value after the error, same error type, and for UnmarshalTypeError the same Value, Type, Offset, Struct, Field and text; one case in three decodes a second fitting text into the same target afterwards (half of those after cutting every slice in the target to half its length), with the same comparison; non-trivial = a type error is reported",
 	Draw: drawTypeErr, Check: checkTypeErr,
 }
 
